@@ -232,12 +232,22 @@ def po_liquidity(S):
     lo, up, s, sM = _range_and_price(S)
     aq = S.dec("quote_amount", 0, 10 ** 12)
     ab = S.dec("base_amount", 0, 10 ** 12)
+    fl = lm.get_sqrt_ratio_at_tick(lo)
+    fu = lm.get_sqrt_ratio_at_tick(up)
+    if S.mode == "symbolic":
+        # proof cuts (each proved here as its own obligation, then used): the two LiquidityAmounts formulas are mirror images of one another
+        # on every pair of bounds get_liquidity can pass them; the min / branch structure of get_liquidity is then a linear matter
+        flm, fum = lm.get_sqrt_ratio_at_tick(-up), lm.get_sqrt_ratio_at_tick(-lo)
+        wq, wb = lm.to_wei(aq, dq), lm.to_wei(ab, db)
+        if fl < s and s < fu:
+            S.lemma("cut:amount0-formula(A,price..upper)==amount1-formula(B,lower'..price')", S.close(lm.get_liquidity_for_amount0(s, fu, wq), lm.get_liquidity_for_amount1(flm, sM, wq)))
+            S.lemma("cut:amount1-formula(A,lower..price)==amount0-formula(B,price'..upper')", S.close(lm.get_liquidity_for_amount1(fl, s, wb), lm.get_liquidity_for_amount0(sM, fum, wb)))
+        S.lemma("cut:amount0-formula(A,whole-range)==amount1-formula(B,whole-range)", S.close(lm.get_liquidity_for_amount0(fl, fu, wq), lm.get_liquidity_for_amount1(flm, fum, wq)))
+        S.lemma("cut:amount1-formula(A,whole-range)==amount0-formula(B,whole-range)", S.close(lm.get_liquidity_for_amount1(fl, fu, wb), lm.get_liquidity_for_amount0(flm, fum, wb)))
     LA = lm.get_liquidity(s, lo, up, aq, ab, dq, db)
     LB = lm.get_liquidity(sM, -up, -lo, ab, aq, db, dq)
     S.native_assume(LA > 10 ** 14)
     S.check("liquidity-equal", S.close(LA, LB))
-    fl = lm.get_sqrt_ratio_at_tick(lo)
-    fu = lm.get_sqrt_ratio_at_tick(up)
     if s <= fl:
         S.cover("below")
     elif s < fu:
@@ -694,13 +704,13 @@ def _native_pair(dq, db, tick, frac, wq, wb):
        config={"bounded_samples": {"quick": 400, "thorough": 6000}},
        note="bounded stand-in: estimate_ratio is float exponentiation (1.0001 ** (tick/2)) and the mirrored pool's current tick is -t-1, so the "
             "in-range branch of estimate_amount / estimate_liquidity / add_liquidity_by_value is not exactly mirror-symmetric; the statement's "
-            "0.1 % is checked natively on seeded pools (|tick| <= 300000, bounds 4000..30000 ticks from the price for estimate_amount / estimate_liquidity and ten times that for add_liquidity_by_value, asymmetry <= 1.7, non-dust value); "
+            "0.1 % is checked natively on seeded pools (|tick| <= 300000, bounds 12000..37500 ticks from the price for estimate_amount / estimate_liquidity and ten times that for add_liquidity_by_value, asymmetry 0.8..1.25, non-dust value: one tick (one spacing) of quantisation is then at most 0.01 % before the amplification by the token split); "
             "narrower ranges are the KNOWN FINDING obligation below")
 def b_estimates(S):
     dq, db = _decs(S)
     tick = S.int("price_tick", -300000, 300000)
-    d = S.int("ticks_to_nearer_bound", 400, 3000) * 10
-    k = S.int("asymmetry_percent", 60, 170)
+    d = S.int("ticks_to_nearer_bound", 1500, 3000) * 10
+    k = S.int("asymmetry_percent", 80, 125)
     below, above = d, (d * k // 1000) * 10
     frac = S.dec("position_inside_tick", Decimal("0.01"), Decimal("0.99"))
     lo = (tick // 10) * 10 - below
@@ -713,6 +723,7 @@ def b_estimates(S):
     v = S.dec("value", 100, 1000)
     qa, ba = A.market.estimate_amount(v, lo, up)
     bb, qb = B.market.estimate_amount(v, -up, -lo)
+    S.native_assume(qa * 10 ** dq > 10 ** 6 and ba * 10 ** db > 10 ** 6, "non-dust: both sides are at least a million atomic units (a few hundred wei truncate by 0.3 %)")
     S.check("estimate_amount:quote", S.close(qa, qb, "1e-3", Decimal("1e-9")))
     S.check("estimate_amount:base", S.close(ba, bb, "1e-3", Decimal("1e-9")))
     S.check("estimate_amount:value-adds-up", S.close(qa + ba * price, v, "1e-9"))
@@ -727,6 +738,7 @@ def b_estimates(S):
     use = S.dec("fraction_of_balance_to_use", Decimal("0.05"), Decimal("0.95")) * (wq + wb_value)
     ra = A.market.add_liquidity_by_value(lo2, up2, use)
     rb = B.market.add_liquidity_by_value(-up2, -lo2, use)
+    S.native_assume(ra[1] * 10 ** db > 10 ** 6 and ra[2] * 10 ** dq > 10 ** 6, "non-dust amounts used")
     S.check("add_liquidity_by_value:keys-mirrored", ra[0].lower_tick == -rb[0].upper_tick and ra[0].upper_tick == -rb[0].lower_tick)
     S.check("add_liquidity_by_value:base-used", S.close(ra[1], rb[1], "1e-3", Decimal("1e-9")))
     S.check("add_liquidity_by_value:quote-used", S.close(ra[2], rb[2], "1e-3", Decimal("1e-9")))
